@@ -59,6 +59,36 @@ func runIntervals(cases []Case, outDir string) {
 					}
 				}
 			}
+			// the extent of every top-level declaration of the input: from its doc comment (or its
+			// first token) to the end of the comments trailing it on its last line
+			declExtents := ""
+			tf := fset.File(f.Pos())
+			for _, d := range f.Decls {
+				lo, hi := int(d.Pos()), int(d.End())
+				var doc *ast.CommentGroup
+				imp := 0
+				switch x := d.(type) {
+				case *ast.GenDecl:
+					doc = x.Doc
+					if x.Tok == token.IMPORT {
+						imp = 1
+					}
+				case *ast.FuncDecl:
+					doc = x.Doc
+				}
+				if doc != nil && len(doc.List) > 0 && int(doc.Pos()) < lo {
+					lo = int(doc.Pos())
+				}
+				endLine := tf.Line(d.End())
+				for _, g := range f.Comments {
+					for _, x := range g.List {
+						if x.Pos() >= d.End() && tf.Line(x.Pos()) == endLine && int(x.End()) > hi {
+							hi = int(x.End())
+						}
+					}
+				}
+				declExtents += fmt.Sprintf(" (%d %d %d)", lo, hi, imp)
+			}
 			snap := astdiff.Before(f, ast.NewCommentMap(fset, f, f.Comments))
 			var sb strings.Builder
 			sb.WriteString("(case " + c.ID + " comments (changes")
@@ -90,7 +120,7 @@ func runIntervals(cases []Case, outDir string) {
 			for _, x := range comments {
 				sb.WriteString(fmt.Sprintf(` (%d %d "%s")`, x.pos, x.end, esc(x.text)))
 			}
-			sb.WriteString("))")
+			sb.WriteString(") (decls" + declExtents + "))")
 
 			pf, err := patch.Parse("p.patch", []byte(c.Patches[0]))
 			if err != nil {
